@@ -189,8 +189,10 @@ def main(payload):
     samples = []
 
     def fail(key, what, **kw):
-        if len(failures) < 40:
-            failures.append(dict(key=f'C16.B.{key}', what=what, replayed=True, **kw))
+        from contracts.b_lib import room
+        ok, kn = room(failures, f'C16.B.{key}', 40, 40)
+        if ok:
+            failures.append(dict(key=f'C16.B.{key}', what=what, replayed=True, _known=kn, **kw))
 
     for name, src in PROGRAMS:
         root = FST(src, 'exec')
